@@ -178,6 +178,16 @@ class ScriptedBroker(AsyncBroker):
                     return fut
 
                 item = AckableMessage(data=data, ack=fack)
+            elif ackkind == "cancelled_future":
+                def cack(i: int = i) -> Any:
+                    # the confirmation is a future of the broker's connection which gets cancelled (connection reset):
+                    # awaiting it raises CancelledError inside the message's callback, the callback task ends cancelled
+                    self.tr.add("ack", i)
+                    fut = loop.create_future()
+                    loop.call_later(0.01, fut.cancel)
+                    return fut
+
+                item = AckableMessage(data=data, ack=cack)
             elif ackkind == "deferred":
                 async def _inner(i: int = i) -> None:
                     self.tr.add("ack", i)
@@ -259,6 +269,8 @@ def build_middlewares(specs: List[Dict[str, Any]], tr: Trace, base: int = 0) -> 
             if hook.startswith("_"):
                 continue
             f = _mk_hook(hook, mi, hs.get("async"), set(hs.get("fail_on", ())), bool(hs.get("stamp")), tr)
+            if hs.get("names") == "other":
+                f = _rename_params(hook, f)
             # "inherited": the hook is defined on an intermediate middleware class, the registered class only inherits it
             (base_ns if hs.get("inherited") else ns)[hook] = f
         parent = type(f"MWBase{mi}", (TaskiqMiddleware,), base_ns) if base_ns else TaskiqMiddleware
@@ -269,6 +281,50 @@ def build_middlewares(specs: List[Dict[str, Any]], tr: Trace, base: int = 0) -> 
             ns["_vt_eq"] = "same"
         out.append(type(f"MW{mi}", (parent,), ns)())
     return out
+
+
+class _Awaitable:
+    """awaitable, but not a coroutine object (what Cython-compiled coroutines, tracing wrappers and lazy clients return)."""
+
+    def __init__(self, coro: Any) -> None:
+        self.coro = coro
+
+    def __await__(self) -> Any:
+        return self.coro.__await__()
+
+
+def _rename_params(hook: str, inner: Callable[..., Any]) -> Callable[..., Any]:
+    """The same hook written with parameter names of its own (msg, res / *args): hooks are called positionally."""
+    is_coro = asyncio.iscoroutinefunction(inner)
+    if hook in ("pre_send", "pre_execute", "post_send"):
+        if is_coro:
+            async def w1(self: Any, msg: Any) -> Any:
+                return await inner(self, msg)
+            w: Any = w1
+        else:
+            def w2(self: Any, msg: Any) -> Any:
+                return inner(self, msg)
+            w = w2
+    elif hook == "on_error":
+        if is_coro:
+            async def w3(self: Any, *args: Any) -> Any:
+                return await inner(self, *args)
+            w = w3
+        else:
+            def w4(self: Any, *args: Any) -> Any:
+                return inner(self, *args)
+            w = w4
+    else:
+        if is_coro:
+            async def w5(self: Any, msg: Any, res: Any) -> Any:
+                return await inner(self, msg, res)
+            w = w5
+        else:
+            def w6(self: Any, msg: Any, res: Any) -> Any:
+                return inner(self, msg, res)
+            w = w6
+    w.__name__ = hook
+    return w
 
 
 def _mk_hook(hook: str, mi: int, is_async: Any, fail_on: set, stamp: bool, tr: Trace) -> Callable[..., Any]:
@@ -307,6 +363,15 @@ def _mk_hook(hook: str, mi: int, is_async: Any, fail_on: set, stamp: bool, tr: T
             return g(self, *a, **k)
 
         fa.__name__ = hook
+        if is_async in ("future", "awaitable"):
+            # a plain function returning an awaitable that is NOT a coroutine object: a Future/Task, or an object with __await__
+            def ff(self: Any, *a: Any, **k: Any) -> Any:
+                if is_async == "future":
+                    return asyncio.ensure_future(fa(self, *a, **k))
+                return _Awaitable(fa(self, *a, **k))
+
+            ff.__name__ = hook
+            return ff
         if is_async == "deferred":
             # a plain function that returns an awaitable (e.g. an async hook behind an ordinary decorator)
             def fd(self: Any, *a: Any, **k: Any) -> Any:
@@ -420,7 +485,25 @@ def register_timing_tasks(broker: ScriptedBroker, tr: Trace, sc: Dict[str, Any])
     AsyncBroker.global_task_registry.pop("shtask", None)
     broker._vt_shared = AsyncSharedBroker()  # type: ignore[attr-defined]
     broker._vt_shared.register_task(shtask, task_name="shtask")  # type: ignore[attr-defined]
-    broker._vt_late = lambda: broker.register_task(latask, task_name="latask")  # type: ignore[attr-defined]
+    # a task name whose function changes KIND after the receiver was built: a shared (global) async task of that name exists
+    # first, then the broker's own SYNC task of the same name is registered - the own task wins from then on
+    async def swtask_shared(i: int) -> Any:
+        tr.add("wrong_function", i)
+        return "the shadowed shared function ran"
+
+    def swtask(i: int) -> Any:
+        return stask(i)
+
+    swtask_shared.__module__ = __name__
+    swtask.__module__ = __name__
+    AsyncBroker.global_task_registry.pop("swtask", None)
+    broker._vt_shared.register_task(swtask_shared, task_name="swtask")  # type: ignore[attr-defined]
+
+    def _late() -> None:
+        broker.register_task(latask, task_name="latask")
+        broker.register_task(swtask, task_name="swtask")
+
+    broker._vt_late = _late  # type: ignore[attr-defined]
 
     async def dyntask(i: int) -> Any:
         return await atask(i)
@@ -444,7 +527,7 @@ def build_script(broker: ScriptedBroker, sc: Dict[str, Any]) -> List[Any]:
     script = []
     for i, sp in enumerate(sc["msgs"]):
         kind = sp["kind"]
-        tname = sp.get("task") or {"sync": "stask", "shared": "shtask", "late": "latask", "dyn": "dyntask", "plaincls": "cltask"}.get(kind, "atask")
+        tname = sp.get("task") or {"sync": "stask", "shared": "shtask", "late": "latask", "dyn": "dyntask", "plaincls": "cltask", "swapped": "swtask"}.get(kind, "atask")
         labels = dict(sp.get("labels") or {})
         late = dict(sp.get("late_labels") or {})
         if sp.get("timeout") is not None:
@@ -602,6 +685,7 @@ def run_worker(sc: Dict[str, Any], register: Optional[Callable[..., None]] = Non
             loop.close()
             asyncio.set_event_loop(None)
     AsyncBroker.global_task_registry.pop("shtask", None)
+    AsyncBroker.global_task_registry.pop("swtask", None)
     if res.get("_restore"):
         res.pop("_restore")()
     if _orig_time is not None:
@@ -638,7 +722,7 @@ def per_message(trace: List[List[Any]]) -> Dict[Any, List[Any]]:
 
 
 def is_good(sp: Dict[str, Any]) -> bool:
-    return sp["kind"] in ("async", "sync", "shared", "late", "dyn", "plaincls")
+    return sp["kind"] in ("async", "sync", "shared", "late", "dyn", "plaincls", "swapped")
 
 
 def brief_trace(trace: List[List[Any]], limit: int = 60) -> List[Any]:
